@@ -24,7 +24,7 @@ RULE = (
     "Each process = store creation + evaluation (+ loads) under the proxy (every os.* / open / raw read / half write / close is "
     "one step). Schedules: Hypothesis lists of ints (one step of runnable[x % n] each), and for two-process scenarios every "
     "schedule 'A runs i steps, B runs j steps, A finishes, B finishes' and its mirror on a stride (quick: ~40 per scenario; "
-    "thorough: complete up to 1200 per scenario), and for the three-process scenario the family 'keeper A runs i steps, keeper B finishes, A runs j more steps, "
+    "thorough: up to 600 per scenario), and for the three-process scenario the family 'keeper A runs i steps, keeper B finishes, A runs j more steps, "
     "the loader runs completely, A finishes' on a stride. Checked per schedule: no process raises (a loader may get the documented missing-path DDSException only for "
     "a path never committed before), every evaluation returns its model value, every load returns the old or the new complete "
     "value, then an observer and a final evaluating process see complete / correct values for every path. Non-trivial = the "
@@ -223,8 +223,8 @@ def check_scenario(sc, ev=None, scratch=None, tier="quick"):
         if len(nops) == 2:
             na, nb = nops
             pairs = [(a, i, j) for a in (0, 1) for i in range(1, (na if a == 0 else nb)) for j in range(1, (nb if a == 0 else na) + 1)]
-            # quick: ~40 schedules of the family per scenario; thorough: all of them up to 1200 (then strided)
-            stride = max(1, len(pairs) // (1200 if tier == "thorough" else 40))
+            # quick: ~40 schedules of the family per scenario; thorough: ~600
+            stride = max(1, len(pairs) // (600 if tier == "thorough" else 40))
             off = sc["sys_seed"] % stride
             for (a, i, j) in pairs[off::stride]:
                 d = ["preempt", a, i, j]
@@ -233,7 +233,7 @@ def check_scenario(sc, ev=None, scratch=None, tier="quick"):
             # two keepers and a loader: keeper a runs i steps, the other keeper finishes, keeper a runs j more steps,
             # the loader runs completely, keeper a finishes
             triples = [(a, i, j) for a in (0, 1) for i in range(1, nops[a]) for j in range(0, nops[a] - i + 1)]
-            stride = max(1, len(triples) // (1500 if tier == "thorough" else 60))
+            stride = max(1, len(triples) // (700 if tier == "thorough" else 60))
             off = sc["sys_seed"] % stride
             for (a, i, j) in triples[off::stride]:
                 d = ["preempt3", a, i, j]
@@ -346,7 +346,7 @@ def check_reader_scenario(sc, ev=None, scratch=None, tier="quick"):
             one(["random", s_], s_)
         na, nb = first["nops"]
         pairs = [(a_, i, j) for a_ in (0, 1) for i in range(1, (na if a_ == 0 else nb)) for j in range(1, (nb if a_ == 0 else na) + 1)]
-        stride = max(1, len(pairs) // (1200 if tier == "thorough" else 60))
+        stride = max(1, len(pairs) // (600 if tier == "thorough" else 60))
         off = sc["sys_seed"] % stride
         for (a_, i, j) in pairs[off::stride]:
             d = ["preempt", a_, i, j]
